@@ -67,3 +67,6 @@ REG.contract(E + "with_outer_namespace", params={"outer_namespace": "dict"}, ret
 
 FUNCTIONS = [V + f for f in ("__init__", "__getitem__", "__contains__", "get", "__setitem__")] + \
             [E + f for f in ("__init__", "namespace", "with_outer_namespace")]
+
+
+ASSUMPTIONS = ['namespaces are modelled as dicts from names to opaque values; a VarLookupDict nested inside another (Call.set_type passes env.namespace as a namespace) is assumed to behave as the dict of its first matches']
